@@ -90,7 +90,11 @@ pub fn run(ctx: &mut Ctx) {
           j.set_value(((action - 16) << 4) | 0xcf);
         }
         let got_p1 = j.get_value() & 0x3f;
-        let irq1 = j.get_interrupt().as_u8() & 0x10 != 0;
+        let raw1 = j.get_interrupt().as_u8();
+          if raw1 & !0x10 != 0 {
+            ctx.violation("C17:interrupt:other-bits", &format!("buttons {:08b}: the joypad returned request bits {:02X}; it may request the joypad interrupt (bit 4) and nothing else", buttons, raw1));
+          }
+          let irq1 = raw1 & 0x10 != 0;
         let irq2 = j.get_interrupt().as_u8() != 0;
         evaluations += 1;
         let what = if action < 8 {
@@ -181,7 +185,11 @@ pub fn run(ctx: &mut Ctx) {
             }
           }
           let got_p1 = j.get_value() & 0x3f;
-          let irq1 = j.get_interrupt().as_u8() & 0x10 != 0;
+          let raw1 = j.get_interrupt().as_u8();
+          if raw1 & !0x10 != 0 {
+            ctx.violation("C17:interrupt:other-bits", &format!("buttons {:08b}: the joypad returned request bits {:02X}; it may request the joypad interrupt (bit 4) and nothing else", buttons, raw1));
+          }
+          let irq1 = raw1 & 0x10 != 0;
           let irq2 = j.get_interrupt().as_u8() != 0;
           evaluations += 1;
           pairs += 1;
